@@ -35,6 +35,7 @@ struct BlockCost {
   undefined: bool,
   /// some instruction of the block can store to memory (or push)
   stores: bool,
+  early: Option<(u16, u32)>,
 }
 
 fn block_cost(core: &Core, pc: u16, single: bool) -> BlockCost {
@@ -43,13 +44,22 @@ fn block_cost(core: &Core, pc: u16, single: bool) -> BlockCost {
   let mut base = 0u32;
   let mut n = 0u32;
   let mut stores = false;
+  // (where the block may end without a terminator, and what it has cost by then: the static
+  // cost is accepted for either extent - where blocks are split is not this property's subject)
+  let mut early: Option<(u16, u32)> = None;
   loop {
     let op = memory_read_byte(mem, at);
     let second = memory_read_byte(mem, at.wrapping_add(1));
     let third = memory_read_byte(mem, at.wrapping_add(2));
     let info = refcpu::info(op, second);
     if info.undefined {
-      return BlockCost { base, extra_if_taken: 0, fallthrough: at, target: None, conditional: false, instructions: n, undefined: true, stores: true };
+      return BlockCost { base, extra_if_taken: 0, fallthrough: at, target: None, conditional: false, instructions: n, undefined: true, stores: true, early };
+    }
+    // the emulator's blocks end before an instruction (other than their first) that is cut by
+    // the end of ROM bank 0 or by the end of ROM ...
+    let end = at as u32 + info.len as u32;
+    if n > 0 && !single && early.is_none() && ((at < 0x4000 && end > 0x4000) || (at < 0x8000 && end > 0x8000)) {
+      early = Some((at, base));
     }
     n += 1;
     stores |= match op {
@@ -77,12 +87,17 @@ fn block_cost(core: &Core, pc: u16, single: bool) -> BlockCost {
         instructions: n,
         undefined: false,
         stores,
+        early,
       };
     }
     base += info.cycles as u32;
     at = next;
+    // ... and when they run from ROM bank 0 into the switchable bank
+    if pc < 0x4000 && at >= 0x4000 && early.is_none() {
+      early = Some((at, base));
+    }
     if n > 40000 {
-      return BlockCost { base, extra_if_taken: 0, fallthrough: at, target: None, conditional: false, instructions: n, undefined: true, stores: true };
+      return BlockCost { base, extra_if_taken: 0, fallthrough: at, target: None, conditional: false, instructions: n, undefined: true, stores: true, early };
     }
   }
 }
@@ -244,6 +259,11 @@ fn check_program(ctx: &mut Ctx, prog: &program::Program, pidx: u64, stepper: Ste
               candidates.push(c.base + c.extra_if_taken);
             }
           }
+        }
+      }
+      if let Some((epc, ecost)) = c.early {
+        if end_pc == epc {
+          candidates.push(ecost);
         }
       }
       if candidates.is_empty() {
